@@ -67,7 +67,7 @@ class W:
 def gen_source(rng: random.Random) -> dict:
     w = W(rng)
     nm = rng.choice([0, 1, 1, 2, 3, 4])
-    places = [rng.choice(["op", "op", "op2", "macro-body", "macro-arg", "switch-hdr", "if-cond", "nested", "inline-ctx", "with"]) for _ in range(nm)]
+    places = [rng.choice(["op", "op", "op2", "macro-body", "macro-arg", "switch-hdr", "if-cond", "nested", "inline-ctx", "with", "for-parts"]) for _ in range(nm)]
     multi = rng.random() < 0.4
     use_macro = any(p in ("macro-body", "macro-arg") for p in places)
     layout = rng.choice(["macro-first", "macro-first", "macro-last", "macro-between"]) if use_macro else "macro-first"
@@ -107,6 +107,8 @@ def gen_source(rng: random.Random) -> dict:
             w.w("if ($V == 1) { forever { switch ($S) { case 2: deep("); w.args(1, multi); w.w("); break_loop; } } }")
         elif p == "inline-ctx":
             w.w("ic<actor A>("); w.args(1, multi); w.w(");")
+        elif p == "for-parts":
+            w.w("for (fi("); w.args(1, multi); w.w("); BranchExecuteSub("); w.mark(multi); w.w("); fe("); w.args(1, multi); w.w(");) { fb("); w.args(1, multi); w.w("); }")
         elif p == "with":
             w.w("with (object B) { wi("); w.args(1, multi); w.w("); }")
     if use_macro and "macro-arg" not in places:
